@@ -262,7 +262,11 @@ def op_strategy(draw, v, led, weights, backend="file", history=()):
             return ("move", T(p), to, draw(st.sampled_from(sorted(set(led.issued)))))
         return ("move", T(p), to, w)
     if kind == "rule":
-        a = draw(anchor_strategy(v, known))
+        url_pages = sorted(p for p in led.pages if p.startswith(b"s:"))
+        if url_pages and draw(st.integers(0, 3)) == 0:
+            a = draw(st.sampled_from(url_pages))        # the anchor is itself an indexed page (often a leaf)
+        else:
+            a = draw(anchor_strategy(v, known))
         return ("rule", maybe_text(draw, a, one_in=4), draw(st.sampled_from(ANCHORED_RULE_NAMES)))
     if kind == "unrule":
         return ("unrule", draw(st.sampled_from(sorted(led.rules))))
